@@ -1,36 +1,45 @@
 --------------------------- MODULE H_UnitMapTrace ---------------------------
 EXTENDS H_UnitMap, TLC, Json, IOUtils, Sequences
 TraceLog == ndJsonDeserialize(IOEnv.TRACE)
-VARIABLES l, made
-tvars == <<live, queued, begun, finished, l, made>>
+VARIABLES l, made, migtgt
+tvars == <<live, queued, begun, finished, l, made, migtgt>>
 Ev == TraceLog[l]
 More == l <= Len(TraceLog)
 Is(e) == More /\ Ev.e = e /\ l' = l + 1
-TInit == HInit /\ l = 1 /\ made = {}
+NoTgt == 99
+TInit == HInit /\ l = 1 /\ made = {} /\ migtgt = [t \in WUnits |-> NoTgt]
 TNext ==
-    \/ (Is("Reset") /\ live' = <<>> /\ queued' = {} /\ begun' = {} /\ finished' = {} /\ made' = {})
-    \/ (Is("UPools") /\ UNCHANGED <<hvars, made>>)
-    \/ (Is("UCreate") /\ Ev.u > 0 /\ Create(Ev.p, Ev.u, Ev.t) /\ UNCHANGED made)
-    \/ (Is("UCreateFail") /\ UNCHANGED <<hvars, made>>)
-    \/ (Is("UFree") /\ Ev.okpool = 1 /\ Ev.queued = 0 /\ Free(Ev.p, Ev.u) /\ UNCHANGED made)
-    \/ (Is("UPush") /\ Push(Ev.p, Ev.u) /\ UNCHANGED made)
-    \/ (Is("UPop") /\ Pop(Ev.p, Ev.u) /\ UNCHANGED made)
+    \/ (Is("Reset") /\ live' = <<>> /\ queued' = {} /\ begun' = {} /\ finished' = {} /\ made' = {} /\ migtgt' = [t \in WUnits |-> NoTgt])
+    \/ (Is("UPools") /\ UNCHANGED <<hvars, made>> /\ UNCHANGED migtgt)
+    \/ (Is("UCreate") /\ Ev.u > 0 /\ Create(Ev.p, Ev.u, Ev.t) /\ UNCHANGED made /\ UNCHANGED migtgt)
+    \/ (Is("UCreateFail") /\ UNCHANGED <<hvars, made>> /\ UNCHANGED migtgt)
+    \/ (Is("UFree") /\ Ev.okpool = 1 /\ Ev.queued = 0 /\ Free(Ev.p, Ev.u) /\ UNCHANGED made /\ UNCHANGED migtgt)
+    \/ (Is("UPush") /\ Push(Ev.p, Ev.u) /\ UNCHANGED made /\ UNCHANGED migtgt)
+    \/ (Is("UPop") /\ Pop(Ev.p, Ev.u) /\ UNCHANGED made /\ UNCHANGED migtgt)
+    \* remove(): the unit must be one of this pool and inside it
+    \/ (Is("URemove") /\ Ev.found = 1 /\ Pop(Ev.p, Ev.u) /\ UNCHANGED made /\ UNCHANGED migtgt)
     \* creation of a work unit: on success it exists (with a unit iff its pool is user-defined), on failure no handle and no unit
-    \/ (Is("UNew") /\ Ev.ret = 0 /\ Ev.hnull = 0 /\ Ev.t \notin made /\ made' = made \cup {Ev.t} /\ UNCHANGED hvars)
-    \/ (Is("UNew") /\ Ev.ret = 1 /\ Ev.hnull = 1 /\ Ev.t \notin made /\ UnitsOf(Ev.t) = {} /\ UNCHANGED <<hvars, made>>)
-    \/ (Is("Look") /\ Look(Ev.t, Ev.u, Ev.back) /\ UNCHANGED made)
-    \/ (Is("Assoc") /\ Ev.ret = 0 /\ Assoc(Ev.t, Ev.p, Ev.user = 1) /\ UNCHANGED made)
-    \/ (Is("Assoc") /\ Ev.ret = 1 /\ AssocFail(Ev.t) /\ UNCHANGED made)
-    \/ (Is("UMigReq") /\ UNCHANGED <<hvars, made>>)
+    \/ (Is("UNew") /\ Ev.ret = 0 /\ Ev.hnull = 0 /\ Ev.t \notin made /\ made' = made \cup {Ev.t} /\ UNCHANGED hvars /\ UNCHANGED migtgt)
+    \/ (Is("UNew") /\ Ev.ret = 1 /\ Ev.hnull = 1 /\ Ev.t \notin made /\ UnitsOf(Ev.t) = {} /\ UNCHANGED <<hvars, made>> /\ UNCHANGED migtgt)
+    \/ (Is("Look") /\ Look(Ev.t, Ev.u, Ev.back) /\ UNCHANGED made /\ UNCHANGED migtgt)
+    \/ (Is("Assoc") /\ Ev.ret = 0 /\ Assoc(Ev.t, Ev.p, Ev.user = 1) /\ UNCHANGED made /\ UNCHANGED migtgt)
+    \/ (Is("Assoc") /\ Ev.ret = 1 /\ AssocFail(Ev.t) /\ UNCHANGED made /\ UNCHANGED migtgt)
+    \* an accepted request names the pool the unit must be moved to; one request at a time per unit
+    \/ (Is("UMigReq") /\ (IF Ev.ret = 0 THEN migtgt[Ev.t] = NoTgt /\ migtgt' = [migtgt EXCEPT ![Ev.t] = Ev.p] ELSE UNCHANGED migtgt)
+        /\ UNCHANGED <<hvars, made>>)
     \* the migration callback runs after the association changed: the unit it sees is the work unit's only unit
-    \/ (Is("MigCb") /\ Ev.u >= 0 /\ (IF Ev.u = 0 THEN UnitsOf(Ev.t) = {} ELSE UnitsOf(Ev.t) = {Ev.u} /\ live[Ev.u].p = Ev.p) /\ UNCHANGED <<hvars, made>>)
-    \/ (Is("SMove") /\ UNCHANGED <<hvars, made>>)
-    \/ (Is("Begin") /\ Begin(Ev.t) /\ UNCHANGED made)
-    \/ (Is("Finish") /\ Finish(Ev.t) /\ UNCHANGED made)
-    \/ (Is("UFreed") /\ Freed(Ev.t) /\ UNCHANGED made)
+    \*  -- and it is in the requested pool; the callback runs once per accepted request
+    \/ (Is("MigCb") /\ Ev.u >= 0 /\ migtgt[Ev.t] # NoTgt
+        /\ (IF Ev.u = 0 THEN UnitsOf(Ev.t) = {} /\ Ev.tgtuser = 0
+                        ELSE UnitsOf(Ev.t) = {Ev.u} /\ live[Ev.u].p = Ev.p /\ Ev.p = migtgt[Ev.t])
+        /\ migtgt' = [migtgt EXCEPT ![Ev.t] = NoTgt] /\ UNCHANGED <<hvars, made>>)
+    \/ (Is("SMove") /\ UNCHANGED <<hvars, made>> /\ UNCHANGED migtgt)
+    \/ (Is("Begin") /\ Begin(Ev.t) /\ UNCHANGED made /\ UNCHANGED migtgt)
+    \/ (Is("Finish") /\ Finish(Ev.t) /\ UNCHANGED made /\ UNCHANGED migtgt)
+    \/ (Is("UFreed") /\ Freed(Ev.t) /\ UNCHANGED made /\ UNCHANGED migtgt)
     \* after ABT_finalize: the units of unnamed owners (primary ULT) are gone too
-    \/ (Is("UEnd") /\ AllReleased /\ made = begun /\ UNCHANGED <<hvars, made>>)
-    \/ (Is("End") /\ UNCHANGED <<hvars, made>>)
+    \/ (Is("UEnd") /\ AllReleased /\ made = begun /\ UNCHANGED <<hvars, made>> /\ UNCHANGED migtgt)
+    \/ (Is("End") /\ UNCHANGED <<hvars, made>> /\ UNCHANGED migtgt)
 TSpec == TInit /\ [][TNext]_tvars
 NotAccepted == l <= Len(TraceLog)
 TrackMax == TLCSet(1, IF TLCGet(1) < l THEN l ELSE TLCGet(1))
